@@ -157,6 +157,12 @@ func genC01(r *rand.Rand, tier string, in *input, c02 bool) {
 				next = ups[r.IntN(len(ups))]
 			}
 			p.failover(next, c02)
+			if r.IntN(2) == 0 { // the deposed leader rejoins while the new one keeps appending
+				p.add(p.commitOp(p.leader, p.cur, p.newCmd()))
+				p.setDown(old, false)
+				p.add(p.commitOp(p.leader, p.cur, p.newCmd()))
+				p.add(p.commitOp(p.leader, p.cur, p.newCmd()))
+			}
 		case x < 93 && c02: // follower gap repair by exact replays
 			f := p.otherNode(p.leader)
 			from := uint64(1 + r.IntN(4))
